@@ -391,7 +391,7 @@ def check(ctx, case, record=True):
 def plan(tier, seed):
     if tier == "quick":
         return [{"task": "hyp", "examples": 1200} for _ in range(12)]
-    return [{"task": "hyp", "examples": 30000} for _ in range(16)]
+    return [{"task": "hyp", "examples": 15000} for _ in range(16)]
 
 
 def run_task(ctx, task, **kw):
